@@ -172,6 +172,10 @@ func isolationMatrix() []isoCell {
 	add("rule/key/primary", oneFieldBundle(fld("value", tKeyF("id62").with(func(t *jT) { t.Primary = pB(true) }))))
 	add("rule/key/primary-false", oneFieldBundle(fld("value", tKeyF("id62").with(func(t *jT) { t.Primary = pB(false) }))))
 	add("rule/key/foreign", oneFieldBundle(fld("value", tKeyF("uuid").with(func(t *jT) { t.Foreign = "other.v1.thing" }))))
+	// entity annotations other than primary = true leave the field as optional as it was declared
+	add("rule/key/foreign-optional", oneFieldBundle(&jF{Name: "value", T: tKeyF("uuid").with(func(t *jT) { t.Foreign = "other.v1.thing" }), Opt: true, UseMarks: true}))
+	add("rule/key/tenant-optional", oneFieldBundle(&jF{Name: "value", T: tKeyF("id62").with(func(t *jT) { t.Tenant = "account" }), Opt: true}))
+	add("rule/key/primary-false-optional", oneFieldBundle(&jF{Name: "value", T: tKeyF("id62").with(func(t *jT) { t.Primary = pB(false) }), Opt: true}))
 	add("rule/key/tenant", oneFieldBundle(fld("value", tKeyF("id62").with(func(t *jT) { t.Tenant = "account" }))))
 	for _, tn := range []string{"string", "integer-INT32", "key-id62", "bool", "date"} {
 		mk := types[tn]
@@ -213,6 +217,11 @@ func isolationMatrix() []isoCell {
 	add("ref/object-qualified", oneFieldBundle(fld("other", tRef(kObject, "iso.v1.Other", "iso.v1.Other")), objDecl("Other", fld("name", tScalar(kString)))))
 	add("ref/object-flatten", oneFieldBundle(fld("other", tRef(kObject, "Other", "iso.v1.Other").with(func(t *jT) { t.Flatten = true })), objDecl("Other", fld("name", tScalar(kString)))))
 	// the flattened property has the name of a member its object brings in
+	// the flattened type is also the type of an ordinary field declared before it
+	add("ref/object-plain-then-flatten", oneFieldBundle(fld("plain", tRef(kObject, "Other", "iso.v1.Other")), objDecl("Other", fld("name", tScalar(kString)), fld("more", tInt("INT32")))).with(func(b *jBundle) {
+		h := b.Files[0].Elems[0].Decl
+		h.Fields = append(h.Fields, fld("plains", tArr(tRef(kObject, "Other", "iso.v1.Other"))), fld("flat", tRef(kObject, "Other", "iso.v1.Other").with(func(t *jT) { t.Flatten = true })))
+	}))
 	add("ref/object-flatten-same-name", oneFieldBundle(fld("other", tRef(kObject, "Other", "iso.v1.Other").with(func(t *jT) { t.Flatten = true })), objDecl("Other", fld("other", tScalar(kString)), fld("more", tInt("INT32")))))
 	add("inline/object-flatten-same-name", oneFieldBundle(fld("address", &jT{Kind: kObject, Flatten: true, Inline: &jDecl{Kind: kObject, Fields: []*jF{fld("address", tScalar(kString)), fld("city", tScalar(kString))}}})))
 	// a nested type (named after its field) has the name of a package-level type which a sibling field refers to
@@ -261,6 +270,11 @@ func isolationMatrix() []isoCell {
 	inlineEnum := func() *jT { return &jT{Kind: kEnum, Inline: &jDecl{Kind: kEnum, Options: []string{"ON", "OFF"}}} }
 	add("inline/enum", oneFieldBundle(fld("mode", inlineEnum())))
 	add("inline/array-enum", oneFieldBundle(fld("modes", tArr(inlineEnum()))))
+	// the nested enum carries a name of its own: its value prefix follows that name, not the field's
+	add("inline/enum-named", oneFieldBundle(fld("status", inlineEnum().with(func(t *jT) { t.InlineName = "Kind" }))))
+	add("inline/enum-named-with-rules", oneFieldBundle(fld("status", inlineEnum().with(func(t *jT) { t.InlineName = "SwitchPosition"; t.Rules = &jRules{In: []string{"ON"}} }))))
+	add("inline/array-enum-named", oneFieldBundle(fld("modes", tArr(inlineEnum().with(func(t *jT) { t.InlineName = "Kind" })))))
+	add("inline/oneof-named", oneFieldBundle(fld("side", (&jT{Kind: kOneof, InlineName: "Direction", Inline: &jDecl{Kind: kOneof, Fields: []*jF{fld("left", &jT{Kind: kObject, Inline: &jDecl{Kind: kObject}})}}}))))
 	inlineOneof := func() *jT {
 		return &jT{Kind: kOneof, Inline: &jDecl{Kind: kOneof, Fields: []*jF{fld("left", inlineObj()), fld("right", &jT{Kind: kObject, Inline: &jDecl{Kind: kObject}})}}}
 	}
@@ -739,3 +753,6 @@ func (g *j5Gen) importFor(f *jFile, pkg string) (string, string) {
 	f.Imports = append(f.Imports, &jImport{Path: pkg})
 	return "", pkg
 }
+
+// with applies an in-place edit to a bundle under construction.
+func (b *jBundle) with(fn func(b *jBundle)) *jBundle { fn(b); return b }
